@@ -44,9 +44,9 @@ C pattern (or ApatPattern.Len()), not from the length of the pattern's text (bra
 	})
 	register(&Rule{
 		ID: "AL-5", Props: []string{"C07"}, Min: 1,
-		Doc: `the cached reverse-complement link is never stale when the nucleotides are reversed: in ReverseComplement every path that reaches the swap loop has either established that the
-link is nil (a test 'revcomp != nil' leading to a return) or assigned it; otherwise reverse-complementing an object in place leaves a link to the sequence it now equals, and the next
-call returns that sequence unchanged. AL-6: Recycle() does not follow links to other sequences (revcomp, paired).`,
+		Doc: `a reverse complement is computed from the nucleotides the object holds now: every value returned by ReverseComplement is its receiver, a fresh Copy() of it (possibly through a helper
+method of the package returning its receiver) or nil — never a *BioSequence remembered in a field of the receiver from an earlier call: no mutator, in-place reversal or Recycle() invalidates such
+a link, so it is stale after any change of either end and aliases the source. AL-6: Recycle() does not follow links to other sequences (paired).`,
 		Run: runAL5,
 	})
 	register(&Rule{
@@ -484,81 +484,85 @@ func runAL5(c *Ctx, s *Sink) {
 			}
 			return ok && namedTypeName(ptr.Elem()) == modPath+"/pkg/obiseq.BioSequence" && namedTypeName(xt) == modPath+"/pkg/obiseq.BioSequence"
 		}
-		// the statement that starts reversing the content: the first loop of the body, or the first call
-		// of a package helper whose body swaps with nucComplement
-		var swap ast.Node
-		for _, st := range fd.Body.List {
-			if swap != nil {
-				break
+		// what ReverseComplement hands back: the receiver, a fresh copy of it, or nil — never an object remembered in a
+		// field from an earlier call
+		recv := info.ObjectOf(fd.Recv.List[0].Names[0])
+		defs := collectDefsTuple(info, fd)
+		var bad []string
+		nret := 0
+		var origin func(e ast.Expr, depth int) string
+		origin = func(e ast.Expr, depth int) string {
+			e = ast.Unparen(e)
+			if depth > 6 {
+				return "?"
 			}
-			switch x := st.(type) {
-			case *ast.ForStmt:
-				swap = x
-			case *ast.ExprStmt:
-				if call, ok := x.X.(*ast.CallExpr); ok {
-					if f := callee(info, call); f != nil && f.Pkg() == p.Types {
-						if d, _ := c.DeclOf(f); d != nil && d.Body != nil {
-							uses := false
-							ast.Inspect(d.Body, func(n ast.Node) bool {
-								if c2, ok := n.(*ast.CallExpr); ok && strings.HasSuffix(fullName(callee(info, c2)), "/pkg/obiseq.nucComplement") {
-									uses = true
-								}
-								return true
-							})
-							if uses {
-								swap = st
-							}
-						}
+			if isLink(e) {
+				return "link"
+			}
+			switch x := e.(type) {
+			case *ast.Ident:
+				if x.Name == "nil" {
+					return "nil"
+				}
+				o := info.ObjectOf(x)
+				worst := ""
+				if o == recv {
+					worst = "recv"
+				}
+				for _, d := range defs[o] {
+					if d == nil {
+						continue
+					}
+					if r := origin(d, depth+1); r == "link" || r == "?" {
+						return r
+					} else if worst == "" {
+						worst = r
 					}
 				}
+				if worst == "" {
+					return "?"
+				}
+				return worst
+			case *ast.CallExpr:
+				f := callee(info, x)
+				if sel, ok := ast.Unparen(x.Fun).(*ast.SelectorExpr); ok && f != nil && f.Pkg() == p.Types {
+					if sig, ok := f.Type().(*types.Signature); ok && sig.Recv() != nil {
+						if f.Name() == "Copy" {
+							return "fresh"
+						}
+						// a method of the package returning its receiver (helper): judged by its receiver here
+						return origin(sel.X, depth+1)
+					}
+				}
+				if f != nil && f.Pkg() == p.Types && (strings.HasPrefix(f.Name(), "New") || strings.HasPrefix(f.Name(), "Make")) {
+					return "fresh"
+				}
+				return "?"
 			}
+			return "?"
 		}
-		if swap == nil {
-			s.Undecided(nil, key, fd.Pos(), "cannot find where the nucleotides are reversed")
-		} else {
-			g := buildCFG(info, fd.Body)
-			ts := &typestate{g: g, init: 0, info: info,
-				events: func(n ast.Node) []tsEvent {
-					var evs []tsEvent
-					if n == swap || (n.Pos() >= swap.Pos() && n.End() <= swap.End()) {
-						evs = append(evs, tsEvent{kind: "swap", node: n})
-					}
-					if as, ok := n.(*ast.AssignStmt); ok {
-						for _, l := range as.Lhs {
-							if isLink(l) {
-								evs = append(evs, tsEvent{kind: "set", node: n})
-							}
-						}
-					}
-					return evs
-				},
-				step: func(st int, ev tsEvent) (int, string) {
-					switch ev.kind {
-					case "set":
-						return 1, ""
-					case "swap":
-						if st == 0 {
-							return 1, "the nucleotides are reversed on a path where the revcomp link has neither been found nil nor been assigned: an object reverse-complemented in place keeps a link to the sequence it now equals, and its next reverse complement returns that sequence unchanged"
-						}
-					}
-					return st, ""
-				},
-				condLeaf: func(leaf ast.Expr, st int, truth bool) int {
-					if b, ok := ast.Unparen(leaf).(*ast.BinaryExpr); ok && isLink(b.X) {
-						if id, ok := ast.Unparen(b.Y).(*ast.Ident); ok && id.Name == "nil" {
-							if (b.Op == token.NEQ && !truth) || (b.Op == token.EQL && truth) {
-								return 1 // link known to be nil
-							}
-						}
-					}
-					return st
-				}}
-			res := ts.run()
-			if len(res.errs) > 0 {
-				s.Fail(nil, key, res.errs[0].pos, res.errs[0].msg)
-			} else {
-				s.Pass(nil, key, swap.Pos(), "the link is nil or freshly assigned on every path reaching the reversal")
+		ast.Inspect(fd.Body, func(n ast.Node) bool {
+			if _, isLit := n.(*ast.FuncLit); isLit {
+				return false
 			}
+			if r, ok := n.(*ast.ReturnStmt); ok && len(r.Results) == 1 {
+				nret++
+				switch origin(r.Results[0], 0) {
+				case "link":
+					bad = append(bad, c.Pos(r.Pos())+": returns "+types.ExprString(r.Results[0]))
+				case "?":
+					bad = append(bad, c.Pos(r.Pos())+": origin of "+types.ExprString(r.Results[0])+" not established")
+				}
+			}
+			return true
+		})
+		switch {
+		case len(bad) > 0:
+			s.Fail(nil, key, fd.Pos(), "ReverseComplement hands back an object remembered in a field of its receiver ("+strings.Join(bad, "; ")+"): nothing invalidates that link when either sequence is modified, reverse-complemented in place or recycled, so y := x.ReverseComplement(false) followed by any change of x or y makes y.ReverseComplement() return stale nucleotides, the in-place form leaves y untouched, and the result shares all its state with x")
+		case nret == 0:
+			s.Undecided(nil, key, fd.Pos(), "no return statement")
+		default:
+			s.Pass(nil, key, fd.Pos(), itoa(nret)+" return(s): the receiver, a fresh copy of it, or nil")
 		}
 	}
 	// AL-6
